@@ -64,7 +64,7 @@ impl Prop for C20 {
         tier.pick(16, 160)
     }
     fn mandatory(&self, _t: Tier) -> Vec<String> {
-        ["info:standard", "info:agile", "info:extensible", "package:mini", "package:regular", "package:empty", "package:difat", "package:fat_237_sectors", "ods:plain_entries_listed_first", "ods:encrypt:first_entries", "ods:encrypt:not_content_xml", "ods:encrypt:whole_package", "ooxml:sector:4096", "ooxml:dir_holes", "ooxml:no_mini_stream", "filepass:xor", "filepass:rc4", "filepass:cryptoapi", "filepass:biff5", "filepass:position>0", "ods:encrypted_entries:1", "ods:encrypted_entries:>1", "plain:xlsx", "plain:xlsb", "plain:xls", "plain:ods"]
+        ["info:standard", "info:agile", "info:extensible", "package:mini", "package:regular", "package:empty", "package:difat", "package:fat_237_sectors", "reader_not_at_start", "ods:plain_entries_listed_first", "ods:encrypt:first_entries", "ods:encrypt:not_content_xml", "ods:encrypt:whole_package", "ooxml:sector:4096", "ooxml:dir_holes", "ooxml:no_mini_stream", "filepass:xor", "filepass:rc4", "filepass:cryptoapi", "filepass:biff5", "filepass:position>0", "ods:encrypted_entries:1", "ods:encrypted_entries:>1", "plain:xlsx", "plain:xlsb", "plain:xls", "plain:ods"]
             .iter().map(|s| s.to_string()).collect()
     }
     fn run_unit(&self, ctx: &Ctx, unit: u64, out: &mut UnitResult) {
@@ -149,7 +149,20 @@ impl Prop for C20 {
             let layout = format!("{}|{}", if cc.v4 { "v4" } else { "v3" }, if built.n_mini_sectors > 0 { "mini" } else { "nomini" });
             let ctxj = json!({"unit": unit, "case": i, "package_len": plen, "layout": format!("{:?}", cc)});
             let keep = |b: &[u8]| if b.len() < 200_000 { json!(hex(b)) } else { json!(null) };
-            match guard(|| Xlsx::new(Cursor::new(built.bytes.clone()))) {
+            // the reader handed over need not be positioned at the start (a caller may have
+            // sniffed the file first): every other case opens from a cursor left somewhere else
+            let at = |rng: &mut Rng| -> Cursor<Vec<u8>> {
+                let mut c = Cursor::new(built.bytes.clone());
+                if i % 2 == 1 {
+                    c.set_position(*rng.pick(&[8u64, 512, built.bytes.len() as u64 / 2, built.bytes.len() as u64]));
+                }
+                c
+            };
+            if i % 2 == 1 {
+                out.feat("reader_not_at_start");
+            }
+            let (c1, c2) = (at(&mut rng), at(&mut rng));
+            match guard(|| Xlsx::new(c1)) {
                 Ok(r) => {
                     if let Err(sym) = is_pw(&r, |e| matches!(e, XlsxError::Password)) {
                         out.fail(format!("c20|ooxml_as_xlsx|{}|{}", sym, layout), json!({"ctx": ctxj, "input_hex": keep(&built.bytes)}));
@@ -157,7 +170,7 @@ impl Prop for C20 {
                 }
                 Err(f) => out.fail(format!("c20|ooxml_as_xlsx|fault:{}", f.class), json!({"ctx": ctxj, "input_hex": keep(&built.bytes)})),
             }
-            match guard(|| Xlsb::new(Cursor::new(built.bytes.clone()))) {
+            match guard(|| Xlsb::new(c2)) {
                 Ok(r) => {
                     if let Err(sym) = is_pw(&r, |e| matches!(e, XlsbError::Password)) {
                         out.fail(format!("c20|ooxml_as_xlsb|{}|{}", sym, layout), json!({"ctx": ctxj, "input_hex": keep(&built.bytes)}));
